@@ -319,6 +319,11 @@ class ConcFactory(object):
             a = lo if lo is not None else -3
             b = hi if hi is not None else a + 7
             v = self.rng.randint(a, min(b, a + 7))
+            # size coincidences: lengths drawn independently agree only by luck, and equal lengths are where the
+            # interesting comparisons (same grid?) start
+            prev = [x for x in self.used.values() if isinstance(x, int) and not isinstance(x, bool) and a <= x <= b]
+            if prev and self.rng.random() < 0.5:
+                v = self.rng.choice(prev)
         if (lo is not None and v < lo) or (hi is not None and v > hi):
             raise Reject(name)
         self.used[name] = v
@@ -357,6 +362,24 @@ class ConcFactory(object):
                     if self.rng.random() < 0.15:
                         vals[i] = self.rng.choice(scal)
             a = np.array(vals, dtype=float).reshape(shape)
+            # array coincidences: an earlier array of the same shape is sometimes reproduced exactly, exactly except in
+            # its interior, or exactly except at one end (a table given on "the same grid" is where comparison slips show)
+            same = [np.array(v, dtype=float) for v in self.used.values()
+                    if isinstance(v, list) and v and np.shape(v) == tuple(shape) and np.array(v).dtype.kind == 'f']
+            u = self.rng.random()
+            if same and a.ndim == 1 and u < 0.30:
+                b = np.array(self.rng.choice(same)) if len(same) > 1 else same[0].copy()
+                b = np.array(b, dtype=float)
+                if u < 0.10 or a.size < 3:
+                    a = b                                    # the same values (a fresh object)
+                elif u < 0.22:
+                    j = self.rng.randrange(1, a.size - 1)    # equal except at one interior point
+                    b[j] = a[j]
+                    a = b
+                else:
+                    j = self.rng.choice([0, a.size - 1])     # equal except at one end
+                    b[j] = a[j]
+                    a = b
         elif dtype == 'int':
             a = np.array([self.rng.randint(-5, 5) for _ in range(int(np.prod(shape)))], dtype=int).reshape(shape)
         else:
